@@ -52,6 +52,7 @@ fn main() {
     let rep = match sub.as_str() {
         "c15-names" => c15::names(&ctx),
         "c13-show" => c13::show(&ctx, &extra),
+        "c13-prec" => c13::prec(&ctx, &extra),
         other => {
             eprintln!("unknown sub-command {other}");
             std::process::exit(2);
